@@ -36,7 +36,8 @@ SameRes(a, b) == a.ok = b.ok /\ a.v = b.v /\ a.e = b.e
 DefMatch(e, D) ==
     LET cr == Create(e.lay, pending, D) IN
     /\ e.obs.verdict = cr.v
-    /\ cr.v = "ok" => \A m \in Mods : \A k \in ParamSet : e.obs.polls[m][k] = PollFlag(e.lay, ClassOf(m), k, {})
+    /\ cr.v = "ok" => /\ \A m \in Mods : \A k \in ParamSet : e.obs.polls[m][k] = PollFlag(e.lay, ClassOf(m), k, {})
+                      /\ \A fn \in DOMAIN HandlerKeys(e.lay) : Range(e.obs.hkeys[fn]) = HandlerKeys(e.lay)[fn]
 StartMatch(e, D) == \A m \in Mods : Match(StartOne(lay, m, D), e.obs.mods[m])
 StepMatch(e, D) ==
     LET q == Outcome(e.mod, e, D) IN
@@ -63,7 +64,7 @@ TStep ==
                 /\ Minimal(D, LAMBDA d : StartMatch(Ev, d))
                 /\ Start(D) /\ devs' = devs \cup D
        \/ /\ Ev.act \in {"read", "change", "poll", "assign", "callcommon", "hwset", "setmode"}
-          /\ Ev.mod \in Mods /\ phase = "run" /\ Guard(Ev.mod, Ev)
+          /\ Ev.mod \in Mods /\ Guard(Ev.mod, Ev)
           /\ \E D \in SUBSET DevsFor(Ev.act) :
                 /\ Minimal(D, LAMBDA d : StepMatch(Ev, d))
                 /\ Act(Ev.mod, Ev, D) /\ devs' = devs \cup D
